@@ -5,12 +5,12 @@ PROP = {
                   "race detector on concurrent notifications"),
     "level_text": ("Generated event sequences (AddInvoice, NotifyExitHopHtlc incl. replays, SettleHodlInvoice, CancelInvoice, "
                    "clock advance past the set timeout / invoice expiry, height changes) over <=3 invoices (regular, hold, "
-                   "zero-amount, AMP, spontaneous keysend/AMP, blinded path id) and <=10 HTLCs run on both stores (quick 3000 / thorough 200000 sequences x 2 stores); every "
+                   "zero-amount, AMP, spontaneous keysend/AMP, blinded path id) and <=10 HTLCs run on both stores (quick 3000 / thorough 300000 sequences x 2 stores); every "
                    "HtlcSettleResolution (returned or delivered on the hodl channel) is judged from the harness' own log of "
                    "what each HTLC carried: preimage hashes to the HTLC's hash, set carried the required payment address, "
                    "one common total >= invoice amount, sum >= total, every member expiry >= accept height + required delta; "
                    "invoice/HTLC states only move forward, AmtPaid exact, replay keeps the verdict, never settled and canceled. "
-                   "A second unit issues the notifications from 2-3 goroutines + an admin goroutine (quick 600 cases; thorough 20000 under -race)."),
+                   "A second unit issues the notifications from 2-3 goroutines + an admin goroutine (quick 600 cases; thorough 30000 under -race)."),
     "level_note": ("Sampled sequences, not exhaustive. Terms of spontaneous (keysend / AMP) invoices are read from the store "
                    "because lnd chooses them. A keysend HTLC that proves knowledge of the preimage is exempt from the "
                    "payment-address clause (documented lnd behaviour, reported as diagnostic). Replay clause is judged only "
@@ -44,12 +44,12 @@ PROP = {
                           "oracle_replay_evals": 4800, "hodl_resolutions": 4500,
                           "settled_sets_mpp_multi": 270, "settled_sets_amp_multi": 380,
                           "settled_sets_legacy_hold": 90, "settled_sets_mpp_multi_hold": 80},
-                "thorough": {"cases": 200000, "runs_kv": 200000, "runs_sqlite": 200000,
-                             "oracle_settle_rule_evals": 150000, "oracle_preimage_evals": 380000,
-                             "oracle_monotone_evals": 10000000, "oracle_amtpaid_evals": 850000,
-                             "oracle_replay_evals": 330000, "hodl_resolutions": 300000,
-                             "settled_sets_mpp_multi": 20000, "settled_sets_amp_multi": 29000,
-                             "settled_sets_legacy_hold": 7500, "settled_sets_mpp_multi_hold": 6000},
+                "thorough": {"cases": 300000, "runs_kv": 300000, "runs_sqlite": 300000,
+                             "oracle_settle_rule_evals": 225000, "oracle_preimage_evals": 570000,
+                             "oracle_monotone_evals": 15000000, "oracle_amtpaid_evals": 1270000,
+                             "oracle_replay_evals": 500000, "hodl_resolutions": 450000,
+                             "settled_sets_mpp_multi": 30000, "settled_sets_amp_multi": 43000,
+                             "settled_sets_legacy_hold": 11000, "settled_sets_mpp_multi_hold": 9000},
             },
         },
         {
@@ -64,9 +64,9 @@ PROP = {
                 "quick": {"cases": 600, "oracle_settle_rule_evals": 180, "oracle_preimage_evals": 480,
                           "oracle_monotone_evals": 1000, "oracle_replay_evals": 430,
                           "hodl_resolutions": 180, "settled_sets_mpp_multi": 30},
-                "thorough": {"cases": 20000, "oracle_settle_rule_evals": 7000, "oracle_preimage_evals": 17000,
-                             "oracle_monotone_evals": 100000, "oracle_replay_evals": 16000,
-                             "hodl_resolutions": 11000, "settled_sets_mpp_multi": 1000},
+                "thorough": {"cases": 30000, "oracle_settle_rule_evals": 10500, "oracle_preimage_evals": 25000,
+                             "oracle_monotone_evals": 150000, "oracle_replay_evals": 24000,
+                             "hodl_resolutions": 16000, "settled_sets_mpp_multi": 1500},
             },
         },
     ],
